@@ -294,7 +294,7 @@ def judge_c06(ctx, idx, op, impl, mi, ms, reason):
     elif op[0] == "senc":
         ctx.count("senc")
         wt = op[1].split(",") if len(op) > 1 else []
-        if "f" in wt or "a0" in wt or "i" in wt:
+        if "f" in wt or "a0" in wt or "i" in wt or any(t.startswith("F") for t in wt):
             # the stream fails part way: C06 only asks that the attempt leaves nothing behind for the next write (the
             # lines that follow); what was accepted must be a prefix of the encoding
             ctx.count("senc_failing_stream")
